@@ -57,7 +57,7 @@ def grid(ctx, rng):
                 for rep_ in range(1 if not reorder else (2 if ctx.quick else 6)):
                     k += 1
                     specs.append(dict(seed=ctx.seed * 7919 + k, maxdata=4096, rid='plus', frag=rng.choice(['whole', 'random']), reorder=reorder, eager=bool(k % 3 == 0),
-                                      ops=[dict(api='push', size=size, src='bytesio', path='/t', mtime=5, plan=dict(where=where, k=kk, reason=reasons[k % 4]),
+                                      ops=[dict(api='push', size=size, src='bytesio', path=('/t', '/т')[k % 2], mtime=5, plan=dict(where=where, k=kk, reason=reasons[k % 4]),
                                                 cuts=rng.choice(['whole', 'small', 'bytes1']), read_timeout_s=2.0)]))
     # larger maxdata
     for md in (65536, 1024 * 1024):
@@ -73,8 +73,22 @@ def grid(ctx, rng):
             for cb in (None, 'ok'):
                 k += 1
                 specs.append(dict(seed=ctx.seed * 31 + k, maxdata=4096, rid='plus', frag=rng.choice(['whole', 'random']),
-                                  ops=[dict(api='pull', size=size, path='/p', plan=dict(where=where, k=kk, reason=reasons[k % 4]), cuts=rng.choice(['whole', 'small', 'bytes1']),
+                                  ops=[dict(api='pull', size=size, path=('/p', '/é/p')[k % 2], path_bytes=(k % 3 == 0), plan=dict(where=where, k=kk, reason=reasons[k % 4]), cuts=rng.choice(['whole', 'small', 'bytes1']),
                                             cb=cb, read_timeout_s=2.0)]))
+    # an aborted transfer first, then a rejected one on the same object (with and without a reconnect in between)
+    for first in (dict(api='pull', path='/a3', size=9000, explicit_sizes=[4000, 5000], cuts=[8 + 1500], budget=3, read_timeout_s=1.0),
+                  dict(api='pull', path='/a1', size=9000, explicit_sizes=[3000, 3000, 3000], cuts='whole', dest=['raise', 1])):
+        for between in ([], [dict(api='reconnect')], [dict(api='reconnect', close_first=False)]):
+            for second in (dict(api='pull', size=5000, path='/p', plan=dict(where='DATA', k=0, reason='gone'), read_timeout_s=2.0),
+                           dict(api='push', size=5000, src='bytesio', path='/t', mtime=5, plan=dict(where='DONE', k=0, reason='quota'), read_timeout_s=2.0)):
+                k += 1
+                specs.append(dict(seed=ctx.seed + 3000 + k, maxdata=4096, rid='plus', frag='whole', ops=[dict(first)] + [dict(b) for b in between] + [dict(second)]))
+    # read_timeout_s = 0 with a clock that advances on every transport call: a FAIL that is already there must still win over the deadline
+    for where, kk in [('SEND', 0), ('DATA', 1)]:
+        for reorder in (False, True):
+            k += 1
+            specs.append(dict(seed=ctx.seed + 4000 + k, maxdata=4096, rid='plus', frag='whole', reorder=reorder, tick=0.001,
+                              ops=[dict(api='push', size=12288, src='bytesio', path='/t', mtime=5, plan=dict(where=where, k=kk, reason='no space'), cuts='small', read_timeout_s=0)]))
     # missing file (the device's own FAIL)
     specs.append(dict(seed=1, maxdata=4096, rid='plus', frag='whole', ops=[dict(api='pull', size=None, path='/missing', plan=dict(where=None, reason='No such file'), read_timeout_s=2.0)]))
     # status ids that are valid FileSync ids but not valid at that point
@@ -107,8 +121,10 @@ def body(ctx):
     traces, meta = [], []
     for i, spec in enumerate(specs):
         for mode in ('sync', 'async'):
-            rr = scen.run(spec, mode)
+            rr = scen.run(spec, mode, **({'tick': spec['tick']} if 'tick' in spec else {}))
             for (j, t) in scen.sync_traces(rr, spec):
+                if 'budget' in spec['ops'][j] or isinstance(spec['ops'][j].get('dest'), list):
+                    continue              # the deliberately aborted first transfer is not judged
                 traces.append(t)
                 meta.append((mode, spec))
     ver, r2 = tlc.validate_traces('TraceSync', traces)
@@ -123,7 +139,7 @@ def body(ctx):
             continue
         rp = dict(kind='transfer', mode=mode, spec=spec, failing_event=l - 1, events=traces[i][-4:])
         # history signature of F5: multi-WRITE push, the device may reorder, the FAIL went out before the host's last WRITE was acknowledged
-        sig_f5 = (v == 'C10.NoTimeoutInstead' and spec['ops'][0]['api'] == 'push' and spec.get('reorder') and spec['ops'][0]['plan']['where'] in ('SEND', 'DATA'))
+        sig_f5 = (v == 'C10.NoTimeoutInstead' and spec['ops'][0]['api'] == 'push' and spec.get('reorder') and (spec['ops'][0].get('plan') or {}).get('where') in ('SEND', 'DATA'))
         ctx.violation(v, rp, finding='F5' if sig_f5 else None)
     ctx.count(traces=okn, evaluations=len(traces), distinct=len(specs))
     ctx.extra['verdict_histogram'] = hist
